@@ -228,6 +228,7 @@ def gen_voice_segment(rng, ids, objs, s, e, voice, staff, pending, poly, last_se
                      "oct": octave, "voice": voice, "staff": staff}
             note_attrs(rng, o)
             members.append(o)
+        tied_in = pending is not None
         if pending is not None:
             objs.append({"k": "tie", "a": pending[0], "b": members[0]["id"]})
             pending = None
@@ -257,7 +258,9 @@ def gen_voice_segment(rng, ids, objs, s, e, voice, staff, pending, poly, last_se
             # concurrently tied notes of one part have distinct pitches (quantifier).  MusicXML pairs
             # ties by pitch in document order, so "concurrently" is taken measure-wise: two ties of
             # one pitch never touch the same measure
-            if all(not (mp == p and a <= next_mi and mi <= b) for (p, a, b) in ties_open):
+            # (round j: the tie that ENDS at this very note is no rival -- a chain over several barlines; the reader
+            # handles the stop of a note before its start)
+            if all(not (mp == p and a <= next_mi and mi <= b) or (tied_in and p == mp and b == mi) for (p, a, b) in ties_open):
                 ties_open.append((mp, mi, next_mi))
                 out_pending = (m0["id"], (m0["step"], m0["alter"], m0["oct"]))
         adv = d
@@ -1299,6 +1302,52 @@ def range_cases(part, loaded_part, written_part, idmap):
     return cases
 
 
+def tie_cases(part, loaded_part, written_part, idmap):
+    """One Coq case per written part that holds a tie (Model/C03_Tie.v check_ties): the score's notes in the document
+    order of the file with the score's tie_prev / tie_next, what was written at every <note> (pitch key, voice, <tie>
+    types), the (tie_prev, note) and (note, tie_next) links of the loaded part; plus what the case exercises."""
+    import partitura.score as S
+    byid = {n.id: n for n in part.iter_all(S.GenericNote, include_subclasses=True)}
+    wnotes = [e for m in written_part["measures"] for e in m["elems"] if e[0] == "note"]
+    if not any(e[6]["stop"] or e[6]["start"] or byid[e[1]].tie_prev is not None or byid[e[1]].tie_next is not None for e in wnotes):
+        return None
+    ref = lambda x: "None" if x is None else "(Some %s)" % cz(idmap.get(x.id, -1))
+    ns, ws = [], []
+    for e in wnotes:
+        n = byid[e[1]]
+        key = getattr(n, "midi_pitch", -1)
+        ns.append("(mkT %s %s %s %s %s)" % (cz(idmap[e[1]]), cz(int(key)), cz(e[5]), ref(n.tie_prev), ref(n.tie_next)))
+        ws.append("(mkW %s %s %s %s %s)" % (cz(idmap[e[1]]), cz(e[6]["midi"]), cz(e[5]), cbool(e[6]["stop"]), cbool(e[6]["start"])))
+    lprev, lnext = [], []
+    for n in loaded_part.iter_all(S.GenericNote, include_subclasses=True):
+        if n.tie_prev is not None:
+            lprev.append(ctuple([cz(idmap.get(n.tie_prev.id, -1)), cz(idmap.get(n.id, -1))]))
+        if n.tie_next is not None:
+            lnext.append(ctuple([cz(idmap.get(n.id, -1)), cz(idmap.get(n.tie_next.id, -1))]))
+    # features (document order of the written file)
+    pos = {e[1]: i for i, e in enumerate(wnotes)}
+    voice = {e[1]: e[5] for e in wnotes}
+    ties = [(pos[n.id], pos[n.tie_next.id], n) for n in byid.values() if n.tie_next is not None and n.tie_next.id in pos]
+    stats = ["parts with ties"]
+    if any(n.tie_prev is not None for (_, _, n) in ties):
+        stats.append("a chain (note with tie stop and tie start)")
+    if any(voice[n.id] != voice[n.tie_next.id] for (_, _, n) in ties):
+        stats.append("a tie whose two notes are written in different voices")
+    if any(getattr(n, "voice", None) != voice[n.id] for (_, _, n) in ties):
+        stats.append("a tied note the exporter moved to another voice")
+    if any(getattr(byid[e[1]], "midi_pitch", -1) == getattr(n, "midi_pitch", -1) and a < pos[e[1]] < b
+           for (a, b, n) in ties for e in wnotes):
+        stats.append("another note of the same pitch written between the two notes of a tie")
+    mx = max((sum(1 for (a, b, _) in ties if a <= i < b) for i in range(len(wnotes))), default=0)
+    stats.append("up to %s ties open between written notes" % (mx if mx < 3 else "3+"))
+    if any(isinstance(n, S.GraceNote) or isinstance(n.tie_next, S.GraceNote) for (_, _, n) in ties):
+        stats.append("a tie from / to a grace note")
+    if any(b - a > 1 and len({m_i for m_i, m in enumerate(written_part["measures"]) for e in m["elems"]
+                              if e[0] == "note" and e[1] in (n.id, n.tie_next.id)}) > 1 for (a, b, n) in ties):
+        stats.append("a tie over a barline with other notes written in between")
+    return ctuple([clist(ns), clist(ws), clist(lprev), clist(lnext)]), stats
+
+
 def wedge_cases(part, loaded_part, written_part):
     """One Coq case per label (wedge, dashes) that occurs in the part: the stop and start events of the score in the order of
     time (stops first at one time; the order in which do_directions numbers and writes them) as (position, range, is-start),
@@ -1445,6 +1494,8 @@ class Outcome:
         self.range_cases = []
         self.range_stats = []
         self.wedge_cases = []
+        self.tie_cases = []
+        self.tie_stats = []
 
 
 def check_spec(spec, want_coq=True, scr=None):
@@ -1536,6 +1587,10 @@ def check_spec(spec, want_coq=True, scr=None):
                         out.range_cases.append((pid, kind, c))
                         out.range_stats.extend(stats)
                     out.wedge_cases.extend((pid, lab, c) for (lab, c) in wedge_cases(part, loaded[pid], wp))
+                    tc = tie_cases(part, loaded[pid], wp, idmap)
+                    if tc is not None:
+                        out.tie_cases.append((pid, tc[0]))
+                        out.tie_stats.extend(tc[1])
                 except KeyError:
                     out.unaligned += 1
         out.unlisted_diffs = len(fp_diff(fp0, fp1, limit=1000, unlisted=True))
@@ -2790,12 +2845,12 @@ def run(ctx):
     ctx.assumptions = ["generated notes carry unique ids, positive voices and staves; no note crosses a barline or a change of divisions",
                        "voices are compared by O2 only for scores whose voices are sequential (otherwise the exporter must re-assign; the new voices are checked against the model)"]
     register_matchers(ctx)
-    ok, why = ctx.coq_props(expect_min=43)
+    ok, why = ctx.coq_props(expect_min=54)
     ctx.log("phase: Props/C03.v built and checked")
     tcases = []
     nviol_seq = sequence_stream(ctx, 40 if ctx.tier == "quick" else 500, tcases)
     n_scores = 320 if ctx.tier == "quick" else 3000
-    mcases, pcases, gcases, rcases, wcases = [], [], [], [], []
+    mcases, pcases, gcases, rcases, wcases, ticases = [], [], [], [], [], []
     nviol = 0
     fresh, fresh_checks = None, 0
     fixed = corpus_specs()
@@ -2860,6 +2915,9 @@ def run(ctx):
                 gcases.append((spec, o.group_case))
             rcases.extend((spec, pid, kind, c) for (pid, kind, c) in o.range_cases)
             wcases.extend((spec, pid, lab, c) for (pid, lab, c) in o.wedge_cases)
+            ticases.extend((spec, pid, c) for (pid, c) in o.tie_cases)
+            for st in o.tie_stats:
+                ctx.count("ties:" + st)
             for st in o.range_stats:
                 ctx.count("ranges:" + st)
             mcases.extend((spec, pid, mi, c) for (pid, mi, c) in o.measure_cases)
@@ -3045,6 +3103,31 @@ def run(ctx):
                 ctx.count("coq:wedge_model_drift", len(wfail))
                 ctx.log("MODEL-DRIFT (no violation): on %d of %d (part, label) cases whose directions survived save/load the wedge / dashes "
                         "numbers written / the ranges read are not those of Model/C03_Rng.v" % (len(wfail), len(wcases)))
+        # tie links (round j extension): the exporter model writes the <tie> types the code wrote at every <note> of a
+        # part, the importer model (ongoing[("tie", pitch)]) links the written notes as load_musicxml linked them;
+        # the hypotheses of tie_links_roundtrip / tie_links_both_directions hold on the generated part (counted)
+        ctx.count("coq:tie_cases (parts with a tie)", len(ticases))
+        timp = "From PV Require Import Model.C03_Tie."
+        tidefs = "Definition pv_tboth c := check_ties c && ties_hyp_b c.\n"
+        try:
+            tall = ctx.coq_failing("tie", timp, tidefs, [c for (_, _, c) in ticases], "pv_tboth", shard=150)
+            tifail = [tall[j] for j in ctx.coq_failing("tiem", timp, tidefs, [ticases[i][2] for i in tall], "check_ties", shard=150)] if tall else []
+            tihyp = [tall[j] for j in ctx.coq_failing("tieh", timp, tidefs, [ticases[i][2] for i in tall], "ties_hyp_b", shard=150)] if tall else []
+        except RuntimeError as ex:
+            tall = None
+            ctx.obligation("correspondence (ti): tie model evaluation", False, str(ex)[-800:])
+            ctx.violation("Coq could not evaluate the tie model: " + str(ex)[-600:], {"error": str(ex)[-1500:]}, no_input=True)
+        if tall is not None:
+            ctx.obligation("correspondence (ti): export_ties (Model/C03_Tie.v) = the pitch key and the <tie> types written at every "
+                           "<note>, and import_ties of the written notes = the tie_prev / tie_next links load_musicxml returned, on %d "
+                           "parts with ties" % len(ticases), not tifail, [ticases[i][1] for i in tifail[:5]])
+            ctx.count("coq:tie_cases_inside_the_hypotheses_of_tie_links_roundtrip", len(ticases) - len(tihyp))
+            if tihyp:
+                ctx.count("coq:tie_cases_outside_the_hypotheses (ties of one pitch open together in document order / one-sided link)", len(tihyp))
+            if tifail:
+                ctx.count("coq:tie_model_drift", len(tifail))
+                ctx.log("MODEL-DRIFT (no violation): on %d of %d parts whose ties survived save/load the <tie> elements written / the "
+                        "links read are not those of Model/C03_Tie.v" % (len(tifail), len(ticases)))
     else:
         ctx.violation("proof obligations of Props/C03.v no longer check: " + why, {"theorem_or_build": why}, no_input=True)
 
